@@ -1,7 +1,6 @@
 package jschema
 
 import (
-	stdBytes "bytes"
 	stdJson "encoding/json"
 
 	"github.com/jsightapi/jsight-schema-core/bytes"
@@ -110,7 +109,12 @@ func (b *exampleBuilder) buildObjectKey(k ischema.ObjectNodeKey) ([]byte, error)
 	if err != nil {
 		return nil, err
 	}
-	return stdBytes.Trim(ex, `"`), nil
+	// The example of a string type is a JSON string: drop exactly the two
+	// delimiting quotes (Trim would also eat an escaped quote at the end).
+	if len(ex) >= 2 && ex[0] == '"' && ex[len(ex)-1] == '"' {
+		return ex[1 : len(ex)-1], nil
+	}
+	return ex, nil
 }
 
 func (b *exampleBuilder) buildExampleForArrayNode(node *ischema.ArrayNode) ([]byte, error) {
